@@ -141,15 +141,21 @@ class Tokenizer:
         """loop until we get INDENT-DEDENT or NL"""
 
         is_indented: bool = False
+        is_block: bool = False  # the header line ended at the colon: an indented block follows
         indent = 0
+        block_indent = 0  # width of the block's own indentation
+        last_code = 0  # last line holding something other than a comment
         lines = {}
         start = end = self._tokens[-1].end
         for idx, tok in enumerate(self._tokengen):
             if (idx == 0) and tok.type == Token.NEWLINE:
+                is_block = True
                 continue
             elif tok.type == Token.INDENT:
-                if (not is_indented) and (idx == 1):
+                if is_block and (not is_indented) and (not last_code):
+                    # blank and comment lines may come before the first line of the block
                     is_indented = True
+                    block_indent = len(tok.string.expandtabs(8))
                     continue
                 indent += 1
             elif tok.type == Token.DEDENT:
@@ -174,8 +180,18 @@ class Tokenizer:
             # update captured lines (a multi-line string contributes each of its physical lines once)
             for lnum, line in self._physical_lines(tok):
                 if lnum not in lines:
-                    lines[lnum] = line if is_indented or lnum != tok.start[0] else line[tok.start[1] :]
+                    lines[lnum] = line if is_block or lnum != tok.start[0] else line[tok.start[1] :]
+            if tok.type not in (Token.NL, Token.COMMENT):
+                last_code = tok.end[0]
 
+        if is_indented:
+            # comment lines after the block that are indented less than it are not part of it
+            for lnum, line in lines.items():
+                text = line.lstrip()
+                if lnum > last_code and text.startswith("#"):
+                    if len(line[: len(line) - len(text)].expandtabs(8)) < block_indent:
+                        lines = {k: v for k, v in lines.items() if k < lnum}
+                        break
         string = "".join(lines.values())
         if is_indented:
             import textwrap
